@@ -581,6 +581,12 @@ for _extra in ("c12_extra_fixes.json",):
             fix(_e["id"], _e["message"], (_e["file"], _e["old"], _e["new"]))
 
 
+# second build round: repairs kept as diffs under notes/fixes_round2/ (the registry only needs their commit messages)
+fix("C12j", "fix: buffer every input of an eternal variable in one entry, whatever period key it is given under")
+fix("C07d", "fix: as-of-date indexing of a several-row vector reads each row, not the first one (VectorialAsofDateParameterNodeAtInstant.__getitem__)")
+fix("C12-errclass-axes", "fix: refuse an axis over an unknown variable or an unreadable period with a situation error")
+
+
 def apply(tree, idents):
     tree = pathlib.Path(tree)
     for ident in idents:
